@@ -230,7 +230,16 @@ func (w *worker) unregister(co *caseObs) {
 type finding struct {
 	Key, What, Step string
 	Timing          bool // depends on packets arriving in time: confirmed by a fresh attempt before it counts
-	URLShaped       bool // a refused step or a path / query / request-URL difference
+}
+
+// urlShaped: a refused step or a path / query / request-URL difference (named by key).
+func urlShaped(key string) bool {
+	for _, m := range []string{"-refused/", "-differs", "-failed", "unparsable"} {
+		if strings.Contains(key, m) {
+			return true
+		}
+	}
+	return false
 }
 
 // base.ParseURL mistakes the first '@' of a URL without user-info for the user-info delimiter
@@ -244,7 +253,7 @@ func renameAtSign(fs []finding, mode string, inClass bool) []finding {
 	var out []finding
 	done := false
 	for _, f := range fs {
-		if !f.URLShaped {
+		if !urlShaped(f.Key) {
 			out = append(out, f)
 			continue
 		}
@@ -307,7 +316,6 @@ func (c urlCase) refusalClass(mode, step string, lines []string) string {
 // compare checks the handler observations of one case against the original URL.
 func (c urlCase) compare(hs []obs, st *caseStats, add func(key, what, step string)) {
 	expPath, expQuery := pctDecode(c.Path), c.Query
-	suffix := ""
 	reported := false
 	for _, o := range hs {
 		st.handlerObs++
@@ -316,18 +324,18 @@ func (c urlCase) compare(hs []obs, st *caseStats, add func(key, what, step strin
 		}
 		switch {
 		case o.Path != expPath:
-			add(fmt.Sprintf("%s/%s/path-differs%s", c.Mode, o.Kind, suffix),
+			add(fmt.Sprintf("%s/%s/path-differs", c.Mode, o.Kind),
 				fmt.Sprintf("%s handler of %s observed Path %q, the URL's path is %q", o.Kind, c.Mode, o.Path, expPath), o.Kind)
 			reported = true
 		case o.Query != expQuery:
-			add(fmt.Sprintf("%s/%s/query-differs%s", c.Mode, o.Kind, suffix),
+			add(fmt.Sprintf("%s/%s/query-differs", c.Mode, o.Kind),
 				fmt.Sprintf("%s handler of %s observed Query %q, the URL's query is %q", o.Kind, c.Mode, o.Query, expQuery), o.Kind)
 			reported = true
 		}
 		if o.HasMedias && !reported {
 			st.sessionChecks++
 			if o.SessPath != expPath || o.SessQuery != expQuery {
-				add(fmt.Sprintf("%s/%s/session-path-query-differs%s", c.Mode, o.Kind, suffix),
+				add(fmt.Sprintf("%s/%s/session-path-query-differs", c.Mode, o.Kind),
 					fmt.Sprintf("ServerSession.Path()/Query() = %q / %q at %s, URL has %q / %q", o.SessPath, o.SessQuery, o.Kind, expPath, expQuery), o.Kind)
 				reported = true
 			}
@@ -385,7 +393,7 @@ func (w *worker) runPlay(c urlCase, r *rand.Rand, keepalive bool) ([]finding, ca
 			}
 		}
 		c.compare(hs, &st, add)
-		return fs, st
+		return renameAtSign(fs, c.Mode, atSignClass(c.URL)), st
 	}
 	refused := func(step string, err error) {
 		add(fmt.Sprintf("%s/%s-refused/", c.Mode, step), fmt.Sprintf("%s failed: %v", strings.ToUpper(step), err), step)
@@ -527,7 +535,7 @@ func (w *worker) runRecord(c urlCase, r *rand.Rand) ([]finding, caseStats) {
 				break
 			}
 		}
-		return fs, st
+		return renameAtSign(fs, c.Mode, atSignClass(c.URL)), st
 	}
 	refused := func(step string, err error) {
 		add(fmt.Sprintf("%s/%s-refused/", c.Mode, step), fmt.Sprintf("%s failed: %v", strings.ToUpper(step), err), step)
@@ -576,7 +584,7 @@ func (w *worker) runRecord(c urlCase, r *rand.Rand) ([]finding, caseStats) {
 		return m
 	}
 	ctr := uint64(0)
-	deadline := time.Now().Add(3 * time.Second)
+	deadline := time.Now().Add(5 * time.Second)
 	for round := 0; ; round++ {
 		have := seen()
 		if len(have) == c.Medias {
